@@ -123,13 +123,17 @@ def b2b(
     """
     from ..pba.intervals.intervalOperators import wc_scalar_interval
 
-    try:
-        vec_itvl = make_vec_interval(vars)
-    except Exception as e:
+    if isinstance(vars, (list, tuple)) and len(vars) == 1 and isinstance(vars[0], Interval):
+        # a single input given as a one-element list (what slicing / interval Monte Carlo pass for one variable)
+        vec_itvl = vars[0]
+    else:
         try:
-            vec_itvl = wc_scalar_interval(vars)
+            vec_itvl = make_vec_interval(vars)
         except Exception as e:
-            raise ValueError(f"Error in making  interval: {e}")
+            try:
+                vec_itvl = wc_scalar_interval(vars)
+            except Exception as e:
+                raise ValueError(f"Error in making  interval: {e}")
 
     match interval_strategy:
         case "endpoints":
